@@ -32,7 +32,7 @@ type Op struct {
 const (
 	nAccts  = 3 // a1, a2 pre-funded; a3 does not exist initially
 	nFunded = 2
-	nVals   = 2
+	nVals   = 3
 	funding = 1000
 )
 
